@@ -219,11 +219,14 @@ func (x *FnExec) havocAll(st *State) {
 			cells[a] = v
 		}
 	}
+	frozen := &State{x: x, heap: st.heap, cells: st.cells, alloc: st.alloc, base: st.base, parents: st.parents, epoch: st.epoch, ghostBase: st.ghostBase}
+	n.ghostBase = frozen
 	st.heap = map[string]*Term{}
 	st.base = n
 	st.parents = nil
 	st.cells = cells
 	st.alloc = n.alloc
+	st.ghostBase = nil
 }
 
 func (x *FnExec) inlineCall(fr *Frame, fn *ssa.Function, c *Contract, args []Value, binds []Value, st *State, g *Term) (Value, *Term) {
